@@ -215,8 +215,25 @@ func runC15(c *Ctx, _ []string) {
 		_, o, _ := t.Forward(append([]byte{}, in...), dst)
 		return dst[:o], t.SkipFlags(), ""
 	}
+	type pr struct{ a, b string }
+	var prs []pr
 	for _, a := range []string{"RLT", "ZRLT", "SRT", "RANK", "MTFT"} {
 		for _, b := range []string{"ROLZX", "ROLZ", "LZX", "LZ", "LZP"} {
+			prs = append(prs, pr{a, b})
+		}
+	}
+	// two members of the same family in one chain: the variant of a slot must not leak into the next one
+	fam := []string{"LZ", "LZX", "LZP", "ROLZ", "ROLZX"}
+	for _, a := range fam {
+		for _, b := range fam {
+			if a != b {
+				prs = append(prs, pr{a, b})
+			}
+		}
+	}
+	for _, ab := range prs {
+		a, b := ab.a, ab.b
+		{
 			for _, chain := range [][]string{{a, b}, {b, a}, {"NONE", b}, {b, "NONE", a}} {
 				for _, shape := range []string{"text", "runs"} {
 					data := mkData(shape, 20000, 43)
@@ -246,7 +263,7 @@ func runC15(c *Ctx, _ []string) {
 						c.Violation(map[string]any{"what": fmt.Sprintf("chain %v: construction failed: %s %s", chain, e1, e2)})
 					} else if flags != want || !bytes.Equal(whole, cur) {
 						c.Violation(map[string]any{"what": fmt.Sprintf("chain %v is not the composition of its named stages (skip flags %02x vs %02x, %s vs %s)", chain, flags, want, short(whole), short(cur)),
-							"key": "impl:chain is not the composition of its named stages", "data": describe(shape, 20000, 43)})
+							"key": "impl:stage-composition:" + canonicalChain(strings.Join(chain, "+")), "data": describe(shape, 20000, 43)})
 					}
 				}
 			}
